@@ -26,7 +26,7 @@ def prove():
     return K.prove(PROP, extra_targets=["Tie/C10.vo"])
 
 
-def _gen_file(rng, wellformed):
+def _gen_file(rng, wellformed, zero_sizes=False):
     eol = rng.choice(["\n", "\n", "\r\n", "\r\r\n"])
     mixed = rng.chance(1, 6)
     lines = ["MODULE Linux x86_64 BE4E976C325246EE9D6B7847A670B2A90 example-linux"]
@@ -74,6 +74,8 @@ def _gen_file(rng, wellformed):
             addr += rng.range(1, 0x40)
         else:
             size = rng.range(1, 0x60)
+            if zero_sizes and rng.chance(1, 5):
+                size = 0                       # a FUNC record that covers no byte (C05's stream only: C10's text specification asks for sizes > 0)
             fname = "fn%d%s" % (si, rng.choice(["", "(int)", " const"])) if not rng.chance(1, 10) else rng.choice(["", " ", "a  b", "operator()(int, char const*) const", "\t"])
             lines.append("FUNC %s%x %x %x %s" % ("m " if rng.chance(1, 8) else "", addr, size, rng.below(32), fname))
             lookups += [addr, addr + size - 1, addr + size, addr + size // 2]
@@ -144,7 +146,7 @@ def _gen_file(rng, wellformed):
                 lines[inl_at:] = merged
             if not wellformed and rng.chance(1, 4):
                 lines.append("INLINE 0 5 0 0 %x" % addr)      # malformed INLINE record: the FUNC cannot be parsed
-            addr += size + rng.choice([0, 0, 1, 16])
+            addr += size + rng.choice([0, 0, 1, 16]) + (1 if size == 0 else 0)
         if rng.chance(1, 5):
             lines.append(rng.choice(["STACK CFI INIT %x 10 .cfa: $rsp 8 +" % addr, "INFO GENERATOR verif", "junk line", "", "FILE", "FUNC zz", "PUBLIC", "INLINE_ORIGIN x y"]))
         if not wellformed and rng.chance(1, 8):
